@@ -714,30 +714,31 @@ func getReferenceModificationsFromMap(dbModel *model.DatabaseModel, table, uuid,
 }
 
 func getReferenceModificationsFromSet(dbModel *model.DatabaseModel, table, uuid, column string, modify, old ovsdb.OvsSet) database.References {
-	// if the modify set is empty, it means the op is clearing an atomic value
-	// so pick the old value instead
-	value := modify
-	if len(modify.GoSet) == 0 {
-		value = old
-	}
-
-	if len(value.GoSet) == 0 {
+	// get the referenced table
+	extendedType, _, _, refTable := refInfo(dbModel, table, column, false)
+	if refTable == "" {
 		return nil
 	}
 
-	// get the referenced table
-	refTable := refTable(dbModel, table, column, false)
-	if refTable == "" {
+	// the modification of a set lists the elements added or removed. An
+	// optional value is replaced as a whole: its old reference stops and its
+	// new reference, if any, starts
+	value := modify.GoSet
+	if extendedType == ovsdb.TypeUUID {
+		value = append(append([]interface{}{}, modify.GoSet...), old.GoSet...)
+	}
+
+	if len(value) == 0 {
 		return nil
 	}
 
 	spec := database.ReferenceSpec{ToTable: refTable, FromTable: table, FromColumn: column}
 	from := uuid
 	refs := database.References{spec: database.Reference{}}
-	for _, v := range value.GoSet {
+	for _, v := range value {
 		switch to := v.(type) {
 		case ovsdb.UUID:
-			refs[spec][to.GoUUID] = append(refs[spec][to.GoUUID], from)
+			refs[spec][to.GoUUID] = []string{from}
 		}
 	}
 	return refs
